@@ -62,7 +62,7 @@ def eval_adverb_each(f, a, op, backend):
         Example: -'[1 2 3]  -->  [-1 -2 -3]
 
     """
-    if isinstance(a,str):
+    if isinstance(a,str) and is_iterable(a):  # a string; characters and symbols are atoms
         if is_empty(a):
             return a
         r = [f(x) for x in backend.str_to_chr_arr(a)]
